@@ -14,6 +14,8 @@ INVARIANT EnvironmentRule
 INVARIANT RepsFromEligibleOnly
 INVARIANT GroupsAccounted
 INVARIANT RelabelRule
+PROPERTY NeighboursIrrelevant
+PROPERTY RefreshIsEnvOf
 PROPERTY BlocksUntouched
 PROPERTY DisabledFreezes
 PROPERTY RefusalKeepsReps
